@@ -15,9 +15,31 @@ deck (alternating between two slides). Oracle (mc.oracles.image_ref, written fro
   * without a size the picture has pixel size * 914400 / dpi per axis, where dpi is the resolution STORED IN THE
     FILE as read by hand-written PNG-pHYs / JFIF / BMP-header / TIFF-IFD readers (not Pillow, not python-pptx), and
     72 is substituted when it is absent or implausible (docs of Image.dpi: < 1 or > 2048; the raw value and the
-    nearest integer are both accepted); tolerance 1 EMU;
+    nearest integer are both accepted). The expected size is computed in exact rational arithmetic: when it is a
+    whole number of EMU the picture must have exactly that size, otherwise either neighbouring integer is accepted;
   * with one dimension given, the given one is kept and the other preserves the native aspect ratio within 1 EMU;
     with both given both are kept. The sizes are read from the returned shape AND from a:ext in the saved slide XML.
+
+E2b (native size, pixel extent x resolution).  The size rule is one arithmetic expression of (pixels, dpi) whose exact
+evaluation depends on the particular pair, so the 17-size alphabet of E2 says nothing about it. Swept exhaustively:
+formats that store a resolution {PNG, JPEG, BMP, TIFF} x the 18 resolutions producers actually write (DPI_SWEEP:
+screen, metric and print values) x EVERY pixel extent 1..128 on both axes (image k of a row is k x (129-k) px), one
+add_picture(no size) per image on one deck per (format, dpi) row, sizes read from the shape and from a:ext of the
+saved slide, oracle as above (exact). Thorough: extents 1..256, plus EVERY integer resolution 1..2048 (JPEG stores it
+exactly) x extents 1..64. A violation names the smallest failing pixel extent of the row.
+
+E2c (state of the file-like object at hand-over).  formats x cursor position {end = just written, 8 = signature
+sniffed, 1, half, last byte; 0 is E2} x {BytesIO, open file object} x entry point {add_picture, insert_picture,
+add_movie poster frame, add_ole_object icon}; the SAME object is handed over twice per case (second time: cursor
+wherever the library left it). Oracle: one image part holding the whole content of the stream with the type of its
+real format, blob of both shapes == content, saved blips resolve to it.
+
+E2d (bytes already stored in a deck the library did not write).  Every corpus deck that holds image parts x every
+distinct image in it x {stream, path} x {deck as opened, deck first saved + re-opened}: the image's own bytes are
+added on the first and the last slide, save, check, re-open, add again, save, check. Oracle: the multiset of image
+byte strings under ppt/media equals that of the corpus deck (no second part, none lost, none unknown), blob of every
+added picture == the bytes, saved blips resolve to a part with those bytes. The content types the producer declared
+(e.g. image/jpg for a JPEG) are whatever the corpus contains; the types of LOADED parts are not judged.
 
 E1 (histories, replay-mode BFS, mc.core.explorer).  Operations: add_picture(A|B|A2|I, slide 0|1, path|stream),
 insert_picture(A) into a picture placeholder, add_movie(poster A | default poster), add_ole_object(icon A | default
@@ -39,9 +61,11 @@ and icon images the library supplies itself, captured as the bytes the library r
     the bytes it was created from, and in the saved zip the a:blip r:embed of that shape resolves (own rels reader)
     to a part with those bytes.
 
-Bounds: quick = E2 space above + BFS depth 3 over all 13 operations; thorough = E2 with more sizes, dpi requests,
-misleading names and size arguments (see _space/_wh_list) + BFS depth 3 over all 13 operations + BFS depth 4 over a
-10-operation sub-alphabet (SUB).
+Bounds: quick = E2, E2b (4 x 18 x 128 = 9216), E2c (5 x 5 x 2 x 4 = 200 cases, 2 calls each), E2d (all (corpus deck,
+image) pairs x 4, 3 additions each) + BFS depth 3 over all 13 operations; thorough = E2 with more sizes, dpi
+requests, misleading names and size arguments (see _space/_wh_list), E2b with extents 1..256 and every integer dpi
+1..2048 + BFS depth 3 over all 13 operations + BFS depth 4 over a 10-operation sub-alphabet (SUB). All E2 families
+assert evaluations == closed-form size.
 
 Deviations from DESIGN 4/C15: the file-name alphabet adds 'upper-case' and an open file object; the E1 alphabet adds
 the default poster/icon variants and 'I' (re-adding an image that was only ever LOADED, which exercises the SHA1
@@ -73,7 +97,11 @@ from mc.oracles import opc_ref
 LEVEL = "model_checking"
 RULE = ("E2: every (format, pixel size, dpi request, hand-over variant) x 4 (width,height) argument combinations, one "
         "add_picture evaluation each; non-trivial/distinct = distinct (sha1 of image bytes, hand-over variant, "
-        "size-argument combination). E1: BFS over operation histories (replay mode) from 3 initial decks, oracle "
+        "size-argument combination). E2b: every (format, dpi of DPI_SWEEP, pixel extent 1..N) - one add_picture "
+        "without a size each, distinct by construction; a (format, dpi) row reports its smallest failing extent. "
+        "E2c: every (format, cursor position != 0, kind of file-like, entry point), the same object handed over "
+        "twice. E2d: every (corpus deck holding images, distinct image in it, stream|path, as opened|re-opened "
+        "first), three additions of the image's own bytes with a save and a re-open in between. E1: BFS over operation histories (replay mode) from 3 initial decks, oracle "
         "in every state; a state is non-trivial when its history has >= 2 operations of which at least one hands "
         "over an image; distinct = distinct canonical states (saved-package digest + populated lazy caches + "
         "reference-model contents)")
@@ -81,6 +109,15 @@ ASSUMPTIONS = [
     "alphabet-bounded: formats PNG/JPEG/GIF/BMP/TIFF as written by Pillow (RGB; GIF palette), sizes, dpi requests, "
     "file names and operations are those listed in coverage.space / coverage.alphabet",
     "depth-bounded BFS; bounds reported in coverage.bfs",
+    "native size: pixel extents 1..128 per axis (thorough 1..256) at the 18 resolutions of DPI_SWEEP, thorough "
+    "additionally every integer dpi 1..2048 at extents 1..64; larger images and other resolutions are covered only "
+    "by the few sizes of the E2 alphabet. The expected size is exact rational arithmetic; a fractional EMU may go "
+    "either way",
+    "file-like objects: io.BytesIO and a binary file object, both seekable; 'the image' of a stream is its whole "
+    "content wherever the cursor is (python-pptx documents and implements a rewind); non-seekable streams are not "
+    "explored",
+    "decks not written by the library: exactly the image-holding decks of the repository corpus (PowerPoint-authored); "
+    "content-type spellings that do not occur there are not explored",
     "the generator's REQUEST is the truth about an image's format; the stored resolution is read by the hand-written "
     "readers in mc.oracles.image_ref (cross-checked against Pillow where Pillow reports one)",
     "trusted: Pillow as image WRITER, zipfile, lxml, mc.oracles.opc_ref",
@@ -459,6 +496,384 @@ def _e2_worker_factory(thorough):
             part.sample({"e2": {k: c[k] for k in ("fmt", "size", "dpi", "name")},
                          "stored_dpi": R.stored_dpi(F.make_image(c["fmt"], tuple(c["size"]), dpi=_dpi_arg(c["dpi"])), c["fmt"])})
     return work
+
+
+
+# =====================================================================================================
+# E2b: pixel extent x resolution sweep of the native size (one add_picture per image, no size given)
+# =====================================================================================================
+# The native size is ONE arithmetic expression of (pixel extent, dpi); whether it is evaluated exactly depends on
+# the particular pair (a float formulation such as px / dpi * 914400 is off by one EMU for 13 px @ 96 dpi but for no
+# extent below 13 at any dpi, and for 72 dpi only from 37 px on). The space is therefore the full product
+# {every pixel extent 1..N} x {resolutions that image producers actually write}: screen 72/96/120/144/192, metric
+# 100/127/200/254/400, print 150/180/220/240/300/360/600/1200 - for each format that can store a resolution (each
+# stores it differently: JFIF integer dpi, TIFF rational, PNG/BMP integer pixels per metre). Image k of a row is
+# k x (N+1-k) pixels, so both axes take every extent 1..N with N images. One deck per (format, dpi) row, one
+# add_picture per image, one save per row; the size is read from the shape and from a:ext of the saved slide.
+DPI_SWEEP = [72, 96, 100, 120, 127, 144, 150, 180, 192, 200, 220, 240, 254, 300, 360, 400, 600, 1200]
+SWEEP_FORMATS = ["PNG", "JPEG", "BMP", "TIFF"]
+SWEEP_N_QUICK = 128
+SWEEP_N_THOROUGH = 256
+# thorough only: EVERY integer resolution of the plausible range 1..2048 (JPEG stores it exactly), extents 1..64
+ALLDPI_RANGE = (1, 2048)
+ALLDPI_N = 64
+
+
+def _sweep_rows(thorough):
+    n = SWEEP_N_THOROUGH if thorough else SWEEP_N_QUICK
+    rows = [{"kind": "nsweep", "fmt": fmt, "dpi": d, "n": n} for fmt in SWEEP_FORMATS for d in DPI_SWEEP]
+    closed = len(SWEEP_FORMATS) * len(DPI_SWEEP) * n
+    if thorough:
+        lo, hi = ALLDPI_RANGE
+        rows += [{"kind": "nsweep", "fmt": "JPEG", "dpi": d, "n": ALLDPI_N} for d in range(lo, hi + 1)
+                 if d not in DPI_SWEEP]
+        closed += (hi - lo + 1 - len([d for d in DPI_SWEEP if lo <= d <= hi])) * ALLDPI_N
+    return rows, closed
+
+
+def _flat_image(fmt, size, dpi):
+    """Single-colour RGB image written by Pillow (deterministic; the colour depends on the size so that no two
+    images of a row have the same bytes)."""
+    from PIL import Image
+    buf = io.BytesIO()
+    Image.new("RGB", size, (size[0] % 256, size[1] % 256, 77)).save(buf, fmt, dpi=(dpi, dpi))
+    return buf.getvalue()
+
+
+def _saved_exts(pkg, slide_pn):
+    """{shape id (str): (cx, cy)} of every shape of the saved slide that has an a:ext (first one below the shape)."""
+    out = {}
+    root = etree.fromstring(pkg.blob(slide_pn))
+    for cnv in root.iter("{%s}cNvPr" % P_NS):
+        el = cnv.getparent().getparent()
+        ext = next(el.iter("{%s}ext" % A_NS), None)
+        if ext is not None and ext.get("cx") is not None:
+            out[cnv.get("id")] = (int(ext.get("cx")), int(ext.get("cy")))
+    return out
+
+
+def nsweep_row(part, row):
+    fmt, dpi, n_max = row["fmt"], row["dpi"], row["n"]
+
+    def viol(rule, attrs, what):
+        # the size arithmetic does not depend on the format: one signature per (dpi, smallest failing extent)
+        sig = "C15|%s|px-sweep|%sdpi=%s%s" % (rule, "" if rule == "native-size" else "fmt=%s|" % fmt, dpi,
+                                            "".join("|" + a for a in attrs))
+        rp = dict(row)
+        rp["signature"] = sig
+        part.violation(sig, "%s images k x (%d-k) px, k=1..%d, stored at %s dpi: %s" % (fmt, n_max + 1, n_max, dpi, what), rp)
+
+    part.count("evaluations", n_max)
+    prs = F.open_prs()
+    slide = prs.slides.add_slide(prs.slide_layouts[6])
+    recs = []
+    raised = None
+    for k in range(1, n_max + 1):
+        size = (k, n_max + 1 - k)
+        blob = _flat_image(fmt, size, dpi)
+        sdpi = R.stored_dpi(blob, fmt)
+        if sdpi[0] is None or abs(sdpi[0] - dpi) >= 0.5 or abs(sdpi[1] - dpi) >= 0.5:
+            raise HarnessError("generator stored %s for a %s dpi request (%s)" % (sdpi, dpi, fmt))
+        part.add("nontrivial", ("nsweep", fmt, dpi, n_max, k))
+        try:
+            pic = slide.shapes.add_picture(io.BytesIO(blob), 0, 0)
+        except Exception as e:  # noqa: BLE001
+            if raised is None:
+                raised = (k, e)
+            continue
+        recs.append((size, sdpi, str(pic.shape_id), (int(pic.width), int(pic.height))))
+    if raised is not None:
+        viol("op-raised", [type(raised[1]).__name__], "add_picture of the %d x %d image raised %r" % (
+            raised[0], n_max + 1 - raised[0], raised[1]))
+        part.outcome("add_picture", "raised:" + type(raised[1]).__name__)
+    try:
+        pkg = opc_ref.read(F.save_bytes(prs))
+    except Exception as e:  # noqa: BLE001
+        viol("op-raised", ["save", type(e).__name__], "save raised %r" % (e,))
+        return
+    exts = _saved_exts(pkg, _slide_members(pkg)[0])
+    bad = {}        # failing pixel extent -> description (smallest extent = the minimal witness of the row)
+    integral = 0
+    for size, sdpi, sid, live in recs:
+        saved = exts.get(sid)
+        if saved is None:
+            viol("saved-size", ["missing"], "saved picture %s has no a:ext" % sid)
+            continue
+        for axis in (0, 1):
+            px = size[axis]
+            if R.native_exact(px, dpi).denominator == 1:
+                integral += 1
+            for where, got in (("shape", live[axis]), ("saved", saved[axis])):
+                if not R.native_ok(px, sdpi[axis], got):
+                    bad.setdefault(px, "%s %s of the %d x %d image is %d EMU; %d px at %s dpi is %s EMU" % (
+                        where, "width" if axis == 0 else "height", size[0], size[1], got, px, dpi,
+                        " or ".join(_fmt_exact(x) for x in R.native_expected_exact(px, sdpi[axis]))))
+    part.add("sweep_integral_sizes", (fmt, dpi, n_max, integral))
+    part.outcome("native_size_sweep", "whole-EMU:" + ("ok" if not bad else "wrong"))
+    if integral < 2 * len(recs):
+        part.outcome("native_size_sweep", "fractional-EMU:" + ("ok" if not bad else "wrong"))
+    if bad:
+        px = min(bad)
+        viol("native-size", ["px=%d" % px], "%d of %d pixel extents give a wrong size, smallest %d px: %s" % (
+            len(bad), n_max, px, bad[px]))
+
+
+def _fmt_exact(x):
+    return str(x.numerator) if x.denominator == 1 else "%.3f (either neighbour)" % float(x)
+
+
+def _sweep_worker(part, chunk):
+    for row in chunk:
+        nsweep_row(part, row)
+    if chunk:
+        part.sample({"px_sweep_row": {k: chunk[0][k] for k in ("fmt", "dpi", "n")}})
+
+
+# =====================================================================================================
+# E2c: the state of the file-like object at hand-over (cursor not at 0; the same object handed over twice)
+# =====================================================================================================
+# "From a stream" in practice means a buffer the caller has just WRITTEN (Pillow/matplotlib save(buf): cursor at the
+# end) or has partly READ (signature sniff, PIL.Image.open(buf).size). The image is the content of the stream, not
+# what lies behind the cursor. Space: format x cursor position x kind of file-like x API entry point; every case
+# hands the SAME object over twice (the second time the cursor is wherever the library left it).
+CURSORS = ["end", "sig8", "one", "half", "last"]       # cursor 0 is the main E2 space
+STREAM_KINDS = ["bytesio", "fileobj"]
+STREAM_APIS = ["add_picture", "insert_picture", "add_movie_poster", "add_ole_icon"]
+
+
+def _cursor_space():
+    return [{"kind": "e2s", "fmt": fmt, "cursor": c, "stream": k, "api": a}
+            for fmt in FORMATS for c in CURSORS for k in STREAM_KINDS for a in STREAM_APIS]
+
+
+def _cursor_pos(label, n):
+    return {"end": n, "sig8": 8, "one": 1, "half": n // 2, "last": n - 1}[label]
+
+
+def e2s_case(part, case):
+    from pptx.enum.shapes import PROG_ID
+    fmt, cur, kind, api = case["fmt"], case["cursor"], case["stream"], case["api"]
+    blob = F.make_image(fmt, (5, 3), dpi=None if fmt == "GIF" else 96, color=7)
+    pos = _cursor_pos(cur, len(blob))
+
+    def viol(rule, attrs, what):
+        sig = "C15|%s|stream-cursor|api=%s|cursor=%s%s" % (rule, api, cur, "".join("|" + a for a in attrs))
+        rp = dict(case)
+        rp["signature"] = sig
+        part.violation(sig, "%s (%d bytes) handed to %s as a %s with the cursor at %d (%s): %s" % (
+            fmt, len(blob), api, kind, pos, cur, what), rp)
+
+    part.count("evaluations", 2)
+    part.add("nontrivial", ("e2s", fmt, cur, kind, api))
+    prs = F.open_prs()
+    lay = _pic_layout(prs)
+    slides = [prs.slides.add_slide(lay), prs.slides.add_slide(lay)]
+    closer = None
+    if kind == "bytesio":
+        src = io.BytesIO()
+        src.write(blob)             # just written: the cursor is at the end
+        if cur != "end":
+            src.seek(0)
+            src.read(pos)           # partly read
+    else:
+        src = closer = open(_write_file("cursor." + CANON_EXT[fmt], blob), "rb")
+        src.read(pos)
+    if src.tell() != pos:
+        raise HarnessError("cursor of the prepared stream is %d, wanted %d" % (src.tell(), pos))
+    made = []   # (slide idx, shape id, shape kind, shape | None)
+    try:
+        for call, s in enumerate(slides, 1):
+            try:
+                if api == "add_picture":
+                    sh = s.shapes.add_picture(src, EMU, EMU)
+                    k = "pic"
+                elif api == "insert_picture":
+                    ph = next(p for p in s.placeholders if hasattr(p, "insert_picture"))
+                    sh = ph.insert_picture(src)
+                    k = "ph"
+                elif api == "add_movie_poster":
+                    sh = s.shapes.add_movie(F.MOVIE, EMU, EMU, EMU, EMU, poster_frame_image=src, mime_type="video/mp4")
+                    k = "movie"
+                else:
+                    sh = s.shapes.add_ole_object(XLSX, PROG_ID.XLSX, EMU, EMU, icon_file=src)
+                    k = "ole"
+            except Exception as e:  # noqa: BLE001
+                viol("op-raised", ["call=%d" % call, type(e).__name__], "call %d raised %s" % (
+                    call, re.sub(r" at 0x[0-9a-f]+", "", repr(e))))
+                part.outcome("stream_cursor", "raised:" + type(e).__name__)
+                continue
+            part.outcome("stream_cursor", "ok:%s:%s" % (api, "first" if call == 1 else "same-object-again"))
+            made.append((call - 1, sh.shape_id, k, sh))
+            if k != "ole":
+                try:
+                    got = sh.poster_frame.blob if k == "movie" else sh.image.blob
+                except Exception as e:  # noqa: BLE001
+                    viol("op-raised", ["call=%d" % call, "read-image", type(e).__name__], "reading the image raised %r" % (e,))
+                    continue
+                if got != blob:
+                    viol("blob", ["call=%d" % call], "the shape's image blob (%d bytes) is not the content of the stream (%d bytes)" % (
+                        len(got), len(blob)))
+    finally:
+        if closer is not None:
+            closer.close()
+    try:
+        pkg = opc_ref.read(F.save_bytes(prs))
+    except Exception as e:  # noqa: BLE001
+        viol("op-raised", ["save", type(e).__name__], "save raised %r" % (e,))
+        return
+    imgs = _media_images(pkg, {_sha(blob)})
+    want = 1 if made else 0
+    if len(imgs) != want:
+        viol("dedup", ["parts=%d" % len(imgs)], "%d image parts after %d additions of the same stream: %s" % (
+            len(imgs), len(made), [(m, len(b)) for m, b, _ in imgs]))
+    if made and not any(b == blob for _, b, _ in imgs):
+        viol("stored-bytes", [], "no image part holds the content of the stream (%s)" % [(m, len(b)) for m, b, _ in imgs])
+    for m, b, ct in imgs:
+        if b == blob:
+            for rule, got, want_t in _type_errors(m, ct, fmt):
+                viol(rule, ["fmt=" + fmt, "got=" + got], "stored as %s with content type %s; wants %s" % (m, ct, want_t))
+    spn = _slide_members(pkg)
+    for si, shape_id, k, _sh in made:
+        tgt, why = _shape_blip_target(pkg, spn[si], shape_id)
+        if tgt is None or not pkg.has_part(tgt) or pkg.blob(tgt) != blob:
+            viol("shape-image", ["kind=" + k], "saved %s shape %s on slide %d does not resolve to the content of the stream (%s)" % (
+                k, shape_id, si, why or tgt))
+
+
+def _cursor_worker(part, chunk):
+    for case in chunk:
+        e2s_case(part, case)
+
+
+# =====================================================================================================
+# E2d: bytes that are ALREADY stored in a deck the library did not write (every corpus deck that holds images)
+# =====================================================================================================
+# "Stores one media part" must also hold when the first copy was not added through this library but LOADED: the
+# lookup then runs over parts built from whatever the producer declared (e.g. PowerPoint's content type image/jpg
+# for a JPEG). Space: every (corpus deck, distinct image stored in it) x {stream, path} x {deck as opened, deck first
+# saved and re-opened by the library}; history: add the image's own bytes on the first and on the last slide, save,
+# check; re-open, add them again, save, check. Model = the multiset of image byte strings of the corpus deck: it
+# must not change.
+CORPUS_FLOOR = (10, 15)     # at least this many corpus decks with images / (deck, image) pairs
+
+
+def _corpus_space():
+    cases, decks = [], 0
+    for path in F.corpus():
+        name = F.corpus_name(path)
+        seen = set()
+        for m, b, _ct in _media_images(opc_ref.read(F.read_bytes(path))):
+            if _sha(b) in seen:
+                continue
+            seen.add(_sha(b))
+            for via in ("stream", "path"):
+                for ro in (False, True):
+                    cases.append({"kind": "e2c", "deck": name, "member": m, "via": via, "reopen": ro})
+        decks += bool(seen)
+    pairs = len(cases) // 4
+    if decks < CORPUS_FLOOR[0] or pairs < CORPUS_FLOOR[1]:
+        raise HarnessError("corpus holds only %d decks with images / %d (deck, image) pairs" % (decks, pairs))
+    return cases, decks, pairs
+
+
+def e2c_case(part, case):
+    deck, member = case["deck"], case["member"]
+    init = F.read_bytes(os.path.join(F.REPO, deck))
+    pkg0 = opc_ref.read(init)
+    ims0 = _media_images(pkg0)
+    b = pkg0.members[member]
+    ct0 = [ct for m, _, ct in ims0 if m == member][0]
+    fmt = R.sniff(b)
+    model = {}
+    names0 = {}
+    for m, x, _ in ims0:
+        model[_sha(x)] = model.get(_sha(x), 0) + 1
+        names0.setdefault(_sha(x), m.rsplit("/", 1)[-1])
+    step = ["open"]
+
+    def viol(rule, attrs, what):
+        sig = "C15|%s|corpus-image|ct=%s|fmt=%s%s" % (rule, ct0, fmt, "".join("|" + a for a in attrs))
+        rp = dict(case)
+        rp["signature"] = sig
+        part.violation(sig, "%s (%s), adding the bytes of its own %s (declared %s, real format %s) via %s, step %s: %s" % (
+            deck, "saved and re-opened first" if case["reopen"] else "as opened", member, ct0, fmt, case["via"], step[0], what), rp)
+
+    def source():
+        return _write_file(FIXED_PATH_NAME, b) if case["via"] == "path" else io.BytesIO(b)
+
+    def check(saved, pics, tag):
+        pkg = opc_ref.read(saved)
+        stored = {}
+        for m, x, _ in _media_images(pkg, set(model)):
+            stored.setdefault(_sha(x), []).append(m)
+        for sha, names in sorted(stored.items(), key=lambda kv: kv[1]):
+            own = "own" if sha == _sha(b) else "other"
+            if sha not in model:
+                viol("stored-bytes", ["unknown-image", tag], "image part(s) %s hold bytes that are not in the corpus deck" % names)
+            elif len(names) > model[sha]:
+                viol("dedup", ["stored-twice", "img=" + own, tag], "the bytes of %s are stored in %d parts %s (the corpus deck: %d)" % (
+                    names0[sha], len(names), names, model[sha]))
+            elif len(names) < model[sha]:
+                viol("dedup", ["initial-part-lost", "img=" + own, tag], "the corpus deck stored %s in %d parts, now %d" % (
+                    names0[sha], model[sha], len(names)))
+        for sha in sorted(model, key=lambda s: names0[s]):
+            if sha not in stored:
+                viol("stored-bytes", ["missing", "img=" + ("own" if sha == _sha(b) else "other"), tag],
+                     "no image part holds the bytes of %s any more" % names0[sha])
+        part.outcome("corpus_image_parts", "%d->%d" % (sum(model.values()), sum(len(v) for v in stored.values())))
+        spn = _slide_members(pkg)
+        for si, shape_id in pics:
+            tgt, why = _shape_blip_target(pkg, spn[si], shape_id) if si < len(spn) and spn[si] else (None, "no slide %d" % si)
+            if tgt is None or not pkg.has_part(tgt) or pkg.blob(tgt) != b:
+                viol("shape-image", ["zip", tag], "saved picture %s on slide %d does not resolve to the added bytes (%s)" % (
+                    shape_id, si, why or tgt))
+
+    def add(prs, si, tag):
+        try:
+            pic = prs.slides[si].shapes.add_picture(source(), EMU, EMU)
+        except Exception as e:  # noqa: BLE001
+            if fmt is None:     # not one of the formats the statement is about: a refusal is an outcome, not a violation
+                part.outcome("add_known_corpus_image", "refused:" + type(e).__name__)
+            else:
+                viol("op-raised", [tag, type(e).__name__], "add_picture raised %r" % (e,))
+                part.outcome("add_known_corpus_image", "raised:" + type(e).__name__)
+            return None
+        part.outcome("add_known_corpus_image", "ok:%s:%s" % (ct0, tag))
+        try:
+            if pic.image.blob != b:
+                viol("blob", [tag], "picture.image.blob is not the added bytes")
+        except Exception as e:  # noqa: BLE001
+            viol("op-raised", [tag, "read-image", type(e).__name__], "picture.image raised %r" % (e,))
+        return (si, pic.shape_id)
+
+    part.count("evaluations", 3)
+    part.add("nontrivial", ("e2c", deck, member, case["via"], case["reopen"]))
+    try:
+        prs = F.open_prs(init)
+        if case["reopen"]:
+            step[0] = "save+re-open"
+            prs = F.reopen(prs)
+        if len(prs.slides) == 0:
+            step[0] = "add_slide"
+            prs.slides.add_slide(prs.slide_layouts[0])
+        step[0] = "add twice + save"
+        last = len(prs.slides) - 1
+        pics = [p for p in (add(prs, 0, "step=1"), add(prs, last, "step=1")) if p is not None]
+        saved = F.save_bytes(prs)
+        check(saved, pics, "step=1")
+        step[0] = "re-open + add + save"
+        prs2 = F.open_prs(saved)
+        pics2 = [p for p in (add(prs2, 0, "step=2"),) if p is not None]
+        check(F.save_bytes(prs2), pics + pics2, "step=2")
+    except HarnessError:
+        raise
+    except Exception as e:  # noqa: BLE001
+        viol("op-raised", [step[0].replace(" ", ""), type(e).__name__], "%s raised %r" % (step[0], e))
+
+
+def _corpus_worker(part, chunk):
+    for case in chunk:
+        e2c_case(part, case)
 
 
 def _selfcheck_readers():
@@ -925,15 +1340,41 @@ def run(ctx):
     fanout(ctx, _e2_worker_factory(thorough), ctx.rotate(cases))
     many = _many_space()
     fanout(ctx, _many_worker, ctx.rotate(many))
-    if ctx.counters.get("evaluations", 0) != closed * nwh + len(many):
-        raise HarnessError("E2 evaluations %s != %d" % (ctx.counters.get("evaluations"), closed * nwh + len(many)))
+    rows, sweep_closed = _sweep_rows(thorough)
+    fanout(ctx, _sweep_worker, ctx.rotate(rows), chunk_size=1 if not thorough else None)
+    cursor = _cursor_space()
+    if len(cursor) != len(FORMATS) * len(CURSORS) * len(STREAM_KINDS) * len(STREAM_APIS):
+        raise HarnessError("stream-cursor generator size %d" % len(cursor))
+    fanout(ctx, _cursor_worker, ctx.rotate(cursor))
+    corpus, corpus_decks, corpus_pairs = _corpus_space()
+    fanout(ctx, _corpus_worker, ctx.rotate(corpus), chunk_size=2)
+    want = closed * nwh + len(many) + sweep_closed + 2 * len(cursor) + 3 * len(corpus)
+    if ctx.counters.get("evaluations", 0) != want:
+        raise HarnessError("E2 evaluations %s != %d" % (ctx.counters.get("evaluations"), want))
+    n_common = SWEEP_N_THOROUGH if thorough else SWEEP_N_QUICK
+    common_axes = 2 * len(SWEEP_FORMATS) * len(DPI_SWEEP) * n_common
+    integral = sum(x[3] for x in ctx.sets.get("sweep_integral_sizes", ()) if x[1] in DPI_SWEEP and x[2] == n_common)
+    if integral * 2 < common_axes:
+        raise HarnessError("vacuous sweep: only %d of %d sizes are a whole number of EMU" % (integral, common_axes))
     ctx.extra["space"] = {
         "formats": FORMATS, "sizes": len(SIZES_QUICK) + (len(SIZES_MORE) if thorough else 0),
         "dpi_requests": [_dpi_label(d) for d in DPI_QUICK + (DPI_MORE if thorough else [])],
         "hand_over": [v[0] for v in _name_variants("PNG", thorough)],
         "size_args": [list(x) for x in _wh_list(thorough)], "cases": closed, "evaluations": closed * nwh,
         "decks_with_N_images_then_a_new_one": {"N": MANY_N, "formats": FORMATS, "hand_over": ["path", "stream"],
-                                               "deck": ["live", "re-opened"], "cases": len(many)}}
+                                               "deck": ["live", "re-opened"], "cases": len(many)},
+        "native_size_px_sweep": {"formats": SWEEP_FORMATS, "dpi": DPI_SWEEP,
+                                 "pixel_extents_per_axis": "1..%d" % (SWEEP_N_THOROUGH if thorough else SWEEP_N_QUICK),
+                                 "every_integer_dpi": ("JPEG, dpi %d..%d x extents 1..%d" % (ALLDPI_RANGE + (ALLDPI_N,))
+                                                       if thorough else "thorough tier only"),
+                                 "rows": len(rows), "evaluations": sweep_closed,
+                                 "sizes_that_are_a_whole_number_of_EMU": "%d of %d (rows of the dpi alphabet)" % (
+                                     integral, common_axes)},
+        "stream_cursor": {"formats": FORMATS, "cursor": CURSORS, "file_like": STREAM_KINDS, "api": STREAM_APIS,
+                          "calls_per_case_with_the_same_object": 2, "cases": len(cursor)},
+        "images_already_in_corpus_decks": {"decks": corpus_decks, "deck_image_pairs": corpus_pairs,
+                                           "hand_over": ["stream", "path"], "deck": ["as opened", "re-opened first"],
+                                           "additions_per_case": 3, "cases": len(corpus)}}
     # ---- E1 -------------------------------------------------------------------------------------------
     ctx.extra["alphabet"] = {"full": [_opsig([o]) for o in ALPHABET], "sub": [_opsig([o]) for o in SUB]}
     ctx.extra["initial_decks"] = {i: [m for m, _ in init_images(i)] for i in ALL_INITS}
@@ -965,4 +1406,14 @@ def replay(data):
             if sig == data["signature"]:
                 return what
         return None
+    for kind, fn, keys in (("nsweep", nsweep_row, ("kind", "fmt", "dpi", "n")),
+                           ("e2s", e2s_case, ("kind", "fmt", "cursor", "stream", "api")),
+                           ("e2c", e2c_case, ("kind", "deck", "member", "via", "reopen"))):
+        if data.get("kind") == kind:
+            part = Partial()
+            fn(part, {k: data[k] for k in keys})
+            for sig, what, _ in part.violations:
+                if sig == data["signature"]:
+                    return what
+            return None
     return explorer.replay_history(System(ALL_INITS), data)
